@@ -677,7 +677,7 @@ ASSUMPTIONS = [
 
 def run(tier, seed):
     core.standard_run(PID, tier, seed, {
-        'model_vos': ['Node/Presence'], 'table_sections': [],
+        'model_vos': ['Node/Presence'], 'table_sections': ['source_shape'],
         'preamble': PREAMBLE, 'run_fn': RUN_FN, 'in_type': IN_TYPE,
         'gen_case': gen_case, 'impl_run': impl_run,
         'expected': expected, 'case_term': case_term,
